@@ -359,7 +359,7 @@ func TestC04Viable(t *testing.T) {
 
 // ---- generated sentences, trivia, mutations, prefixes
 
-var symPool = []string{"%", "7%d", "m", "dim", "aug", "7", "M7", "maj7", "m7", "mM7", "m7b5", "dim7", "augM7", "9", "m9", "M9", "maj9", "mM9", "sus4", "7sus4", "6", "m6", "add9", "sus2",
+var symPool = []string{"%", "7%d", "no5", "n", "m", "dim", "aug", "7", "M7", "maj7", "m7", "mM7", "m7b5", "dim7", "augM7", "9", "m9", "M9", "maj9", "mM9", "sus4", "7sus4", "6", "m6", "add9", "sus2",
 	"MajorSeventh", "DominantSeventh", "+", "(b9)", "ø", "Δ7", "m]x", "{x}", "x,y", "7#9", "b5", "#11", "]", "o7", "R", "C", "}", ",", "♭9", "é"}
 
 func genSDeg(syll bool) *rapid.Generator[SDeg] {
